@@ -87,6 +87,31 @@ pub fn semw_case(kind: &str, form: &str, desig_text: &str, prelude: &str, is_con
     Some(format!("semw\t{input}\ttype={sym};diag={d}\t{oracle}"))
 }
 
+/// the return type of a subroutine whose width is a const identifier, with the name shadowed by a parameter
+/// or by a declaration in the body: the signature is written in the enclosing scope
+pub fn semw_ret_case(kind: &str, n: u128, shadow: u64) -> Option<String> {
+    let ty = type_text(kind, "n");
+    let (param, body) = match shadow {
+        0 => ("int[8] a", String::new()),
+        1 => ("int[8] n", String::new()),
+        _ => ("int[8] a", format!("const uint[64] n = {};", n + 3)),
+    };
+    let text = format!("const uint[64] n = {n};\ndef fr({param}) -> {ty} {{ {body} return 1; }}");
+    let o = run_sema(&text);
+    let input = format!("{kind}\tconstcast:{n}\t1");
+    if let Some(p) = &o.panic {
+        return Some(format!("semw\t{input}\tPANIC {}\tFAIL C03: analysis panicked on an error-free program: {} ;; {}", &p[..p.len().min(50)], &p[..p.len().min(90)], text.replace('\n', " ")));
+    }
+    if o.any_syntax {
+        return None;
+    }
+    let d = o.stmts.iter().map(|s| parse_debug(s)).find(|s| s.name() == "DefStmt")?;
+    let rt = enc_type(d.arg(0)?.field("return_type")?);
+    let diags: Vec<&str> = o.errors.iter().filter(|(k, _, _, _)| k.contains("Designator") || k.contains("ConstInteger")).map(|(k, _, _, _)| k.as_str()).collect();
+    let dg = diags.first().cloned().unwrap_or("None");
+    Some(format!("semw\t{input}\ttype={rt};diag={dg}\tok"))
+}
+
 pub fn run(args: &[String]) {
     silence_panics();
     let mut w = out();
@@ -138,6 +163,16 @@ pub fn run(args: &[String]) {
                     if let Some(l) = semw_case(kind, form, d, pre, is_const, scope) {
                         writeln!(w, "{l}").unwrap();
                     }
+                }
+            }
+        }
+    }
+    // subroutine return types: a const width written in the signature, shadowed inside the subroutine
+    for kind in ["int", "uint", "float", "angle", "bit"] {
+        for n in [1u128, 8, 16, 64] {
+            for shadow in 0..3u64 {
+                if let Some(l) = semw_ret_case(kind, n, shadow) {
+                    writeln!(w, "{l}").unwrap();
                 }
             }
         }
